@@ -1,7 +1,8 @@
 import re
+from bisect import bisect_right
 from re import Pattern
 
-from flowmark.linewrapping.tag_handling import TEMPLATE_TAG_PATTERN
+from flowmark.linewrapping.tag_handling import find_template_tags
 
 ELLIPSIS_PATTERN: Pattern[str] = re.compile(
     r"(^|[\w\"\'“‘”’])(\s*)(\.\.\.)([.,:;?!)\-—\"\'”’]?)(\s*)",
@@ -25,11 +26,13 @@ def ellipses(text: str) -> str:
     """
 
     # Like smart quotes, never touch the inside of template tags and HTML comments.
-    tag_spans = [m.span() for m in TEMPLATE_TAG_PATTERN.finditer(text)]
+    tag_spans = find_template_tags(text)
 
     def replace_match(match: re.Match[str]) -> str:
         dots_pos = match.start(3)
-        if any(start <= dots_pos < end for start, end in tag_spans):
+        # The last tag that starts at or before the dots (spans are sorted and disjoint).
+        i = bisect_right(tag_spans, (dots_pos, len(text))) - 1
+        if i >= 0 and dots_pos < tag_spans[i][1]:
             return match.group(0)
 
         prefix = match.group(1)
